@@ -26,6 +26,8 @@ cfg("fwd_t", k=3)                                      # thorough tier
 cfg("fwd_t3s", k=3, syncs="{TRUE}")                   # K = 3, barrier scripts only (completeness; small interleaving)
 cfg("fwd_q2s", k=2, syncs="{TRUE}")
 cfg("fwd_live", k=1, invs=None, props="EndTogether Complete")      # leads-to under weak fairness
+cfg("fwd_live_q", k=1, post="FALSE", faults='{"unkMsg", "tgtSendFail", "srcSendFail"}', invs=None, props="EndTogether Complete")   # quick tier
+cfg("fwd_t3n", k=3, srcends='{"eof"}', faults="{}", post="FALSE", syncs="{FALSE}")     # K = 3 racing scripts, ends only
 cfg("fwd_live2", k=2, post="FALSE", invs=None, props="EndTogether Complete")
 cfg("fwd_draft", k=2, race="FALSE")                    # the calibration draft's resolution of the select race (towards the latch)
 # design mutants (expected: NoStuck violated) - show that the invariants are not vacuous and which mechanisms are redundant
